@@ -6,6 +6,7 @@ package main
 // same operand (the same address) under the same directive.
 
 import (
+	"errors"
 	"fmt"
 	"reflect"
 	"strings"
@@ -255,6 +256,62 @@ func c05unexported(c *Ctx, cfg map[string]bool) {
 				}
 				w.Nontrivial(hashStrs("unexp", d, sprintType(operand), routeNames[route], sprint(cfg["RegInt"])))
 			}
+		}
+	})
+}
+
+// c05builtinRegistered: "for all sets of types registered with RegisterSafeType" includes the built-in types themselves.
+// With string and int registered, values of exactly these types are safe wherever they occur (map keys and values,
+// typed and interface-typed elements, fields, behind pointers); named types derived from them are not.
+func c05builtinRegistered(c *Ctx) {
+	redact.VerifResetSafeTypes()
+	redact.RegisterSafeType(reflect.TypeOf(""))
+	redact.RegisterSafeType(reflect.TypeOf(0))
+	defer redact.VerifResetSafeTypes()
+	u := func(s string) string { return wrapUnsafe(s) }
+	x := 7
+	cases := []struct {
+		format  string
+		operand interface{}
+		want    string
+	}{
+		{"%v", "s" + startM, "s?"},
+		{"%5d|", 42, "   42|"},
+		{"%v", map[string]string{"k": "v"}, "map[k:v]"},
+		{"%v", map[string]int{"a": 1, "b": 2}, "map[a:1 b:2]"},
+		{"%v", map[interface{}]interface{}{"k": 1}, "map[k:1]"},
+		{"%v", map[interface{}]interface{}{tNStr("n"): int8(3)}, "map[" + u("n") + ":" + u("3") + "]"},
+		{"%q", []string{"a", "b"}, `["a" "b"]`},
+		{"%v", []interface{}{"a", 1, 2.5, tNInt(4)}, "[a 1 " + u("2.5") + " " + u("4") + "]"},
+		{"%+v", struct {
+			S string
+			N int
+			F float64
+			t string
+		}{"s", 1, 1.5, "t"}, "{S:s N:1 F:" + u("1.5") + " t:t}"},
+		{"%v", &struct{ P *int }{&x}, "&{" + u(fmt.Sprintf("%p", &x)) + "}"},
+		{"%v", [2]string{"x", "y"}, "[x y]"},
+		{"%x", "hi", "6869"},
+		{"%v", redact.Unsafe("u"), u("u")},
+		{"%v", []interface{}{redact.Unsafe("u"), redact.Unsafe(3)}, "[" + u("u") + " " + u("3") + "]"},
+		{"%d", []int{1, 2}, "[1 2]"},
+		{"%v", errors.New("e"), u("e")},
+	}
+	c.ParallelFor(int64(len(cases)), func(w *Worker, i int64) {
+		cse := cases[i]
+		for _, route := range []int{routeS, routeBuilder, routeSF} {
+			o := runRedact(route, false, "a "+cse.format+" z", []interface{}{cse.operand})
+			w.Eval(1)
+			cs := map[string]string{"format": cse.format, "operand": sprintType(cse.operand), "route": routeNames[route], "registered": "string,int"}
+			if o.panicked {
+				w.Violate("C05 builtin-registered", routeNames[route]+" panicked: "+pvalString(o.pval), cs)
+				continue
+			}
+			if canon(o.out) != canon("a "+cse.want+" z") {
+				w.Violate("C05 builtin-registered", "with string and int registered as safe types, "+routeNames[route]+"("+q(cse.format)+", "+sprintType(cse.operand)+") = "+q(o.out)+", want "+q("a "+cse.want+" z"), cs)
+				continue
+			}
+			w.Nontrivial(hashStrs("builtinreg", cse.format, sprintType(cse.operand), routeNames[route]))
 		}
 	})
 }
